@@ -353,7 +353,8 @@ def trees_for(run: Run):
     conv = [(f, t) for f, t in G.conversions(ws, None if run.thorough else (1, 2))
             if "'variable'" not in repr(t) and "'varassign'" not in repr(t)]  # forms that exist for constants too
     return (list(G.depth1(ws, mixed=True, families=FAMILIES))
-            + list(G.depth1_const(ws, mixed=True, families=CONST_MIX_FAMILIES)) + conv)
+            + list(G.depth1_const(ws, mixed=True, families=CONST_MIX_FAMILIES)) + conv
+            + list(G._dedup(G.multi_subscripts(quick=not run.thorough))))
 
 
 def main(run: Run):
